@@ -288,10 +288,14 @@ func scenarios(tier string) []scen {
 		}
 		return scen{Kind: kind, Threads: threads, Horizon: horizon, Bound: b}
 	}
+	V := func(c scen, variant int) scen { c.Variant = variant; return c }
 	out := []scen{
 		S("nack-generator", 2, "r1", "r1b", "unbind-r1"),
 		S("nack-generator", 2, "r1", "r2", "close"),
 		S("nack-generator", 1, "r1", "r3"),
+		// with a per-packet NACK limit (bookkeeping per requested number) and the last number skipped
+		V(S("nack-generator", 2, "r1", "unbind-r1"), 1),
+		V(S("nack-generator", 2, "r1", "r1b", "close"), 1),
 		S("nack-responder", 0, "w1", "w1b", "rtcp-nack"),
 		S("nack-responder", 0, "w1", "rtcp-nack", "unbind-l1"),
 		S("nack-responder", 0, "w1", "rtcp-nack", "close"),
